@@ -13,7 +13,8 @@ EXTENDS Integers, Sequences, FiniteSets, TLC, Json
 
 CONSTANTS PreBytes,    \* how many leading bytes are treated as preamble / header fields
           PairBytes,   \* pairs of byte overwrites are generated within this prefix
-          MaxTrunc     \* truncation lengths 0..MaxTrunc
+          MaxTrunc,    \* truncation lengths 0..MaxTrunc
+          MaxField     \* value fields (8-byte / 4-byte) are overwritten up to this offset
 
 B8 == {0, 1, 2, 3, 4, 5, 7, 8, 10, 15, 16, 20, 21, 22, 26, 27, 31, 32, 33, 63, 64, 65, 127, 128, 129, 200, 254, 255}
 PairVals == {0, 1, 4, 26, 64, 255}
@@ -26,6 +27,11 @@ Scripts ==
   \cup {[k |-> "u16", off |-> o, v |-> v] : o \in {x \in 0..(PreBytes - 2) : x % 2 = 0}, v \in {"0", "1", "2p15", "2p16m1"}}
   \cup {[k |-> "u32", off |-> o, v |-> v] : o \in {x \in 0..(PreBytes - 4) : x % 4 = 0}, v \in B32}
   \cup {[k |-> "u64", off |-> o, v |-> v] : o \in {x \in 0..(PreBytes - 8) : x % 8 = 0}, v \in B64}
+  \* value fields behind the preamble (means, weights, buffered values, counters, hashes): non-finite
+  \* and extreme bit patterns at every aligned offset
+  \cup {[k |-> "u64", off |-> o, v |-> v] : o \in {x \in PreBytes..(MaxField - 8) : x % 8 = 0},
+                                           v \in {"nan", "inf", "ninf", "2p64m1", "0", "2p63"}}
+  \cup {[k |-> "u32", off |-> o, v |-> v] : o \in {x \in 8..(MaxField - 4) : x % 4 = 0}, v \in {"nan32", "inf32", "2p32m1"}}
   \cup {[k |-> "flip", off |-> o, bit |-> b] : o \in 0..(PreBytes - 1), b \in 0..7}
   \cup {[k |-> "trunc", len |-> n] : n \in 0..MaxTrunc}
   \cup {[k |-> "ext", n |-> n] : n \in 1..16}
@@ -39,7 +45,8 @@ Next == ~done /\ done' = TRUE
 Spec == Init /\ [][Next]_done
 
 \* every script is well-formed for an image of at least PreBytes bytes
-WellFormed == \A s \in Scripts : (s.k \in {"u8", "u16", "u32", "u64", "flip"}) => s.off < PreBytes
+WellFormed == \A s \in Scripts : /\ ((s.k \in {"u8", "u16", "flip"}) => (s.off < PreBytes))
+                                  /\ ((s.k \in {"u32", "u64"}) => (s.off < MaxField))
 Emit == done => \A s \in Scripts : (s.k = "pair" /\ s.o1 >= s.o2) \/ PrintT(<<"REPLAY", ToJson(s)>>)
 Inv == WellFormed /\ Emit
 ===============================================================================
